@@ -87,7 +87,7 @@ func runFree(f *Factory, p *Program, names []string, record bool) (h History, fi
 	sess := make([]*Session, len(p.Procs))
 
 	for g := range p.Procs {
-		s := &Session{Target: f.Target, FS: base.FS, NoIdm: base.NoIdm, NoSym: base.NoSym, NoRootList: base.NoRootList, Tmp: map[string]string{}}
+		s := &Session{Inline: true, Target: f.Target, FS: base.FS, NoIdm: base.NoIdm, NoSym: base.NoSym, NoRootList: base.NoRootList, Tmp: map[string]string{}}
 
 		if strings.HasPrefix(f.Target, "memfs") {
 			v, err := base.FS.Sub("/")
